@@ -821,6 +821,8 @@ func (o *orbitDB) monitorDirectChannel(ctx context.Context, bus event.Bus) error
 	}
 
 	go func() {
+		defer sub.Close()
+
 		for {
 			var e interface{}
 			select {
